@@ -1,6 +1,8 @@
 package ot
 
 import (
+	"errors"
+
 	"github.com/taurusgroup/multi-party-sig/pkg/hash"
 	"github.com/taurusgroup/multi-party-sig/pkg/math/curve"
 	"github.com/taurusgroup/multi-party-sig/pkg/math/sample"
@@ -133,6 +135,11 @@ type AdditiveOTReceiveResult [][2]curve.Scalar
 // Round2 executes the Receiver's second round of an Additive OT.
 func (r *AdditiveOTReceiver) Round2(msg *AdditiveOTSendRound1Message) (AdditiveOTReceiveResult, error) {
 	batchSize := 8 * len(r.choices)
+	// The message comes from the other party: make sure it has one pair of pads per transfer
+	// before indexing into it (the individual pads are length checked when unmarshalled).
+	if len(msg.CombinedPads) != batchSize {
+		return nil, errors.New("AdditiveOTReceiver Round2: incorrect batch size in message")
+	}
 	result := make([][2]curve.Scalar, batchSize)
 	prg := blake3.New()
 	for i := 0; i < batchSize; i++ {
